@@ -461,22 +461,25 @@ def _c19_mutate(rec):
 
 reg(P("C19", "push", "c19",
       mc={"quick": [("PushMC", "Push_fix.cfg", 600), ("PushMC", "Push_live.cfg", 600),
-                    ("PushMC", "Push_bug.cfg", 600, "violation")],
+                    ("PushMC", "Push_bug.cfg", 600, "violation"), ("PushMC", "Push_bug_hb.cfg", 600, "violation")],
           "thorough": [("PushMC", "Push_fix.cfg", 600), ("PushMC", "Push_fix_big.cfg", 900), ("PushMC", "Push_live.cfg", 900),
-                       ("PushMC", "Push_bug.cfg", 600, "violation")]},
+                       ("PushMC", "Push_bug.cfg", 600, "violation"), ("PushMC", "Push_bug_hb.cfg", 600, "violation")]},
       traces=[("", "PushTrace", "PushTrace.cfg")],
       level="model_checking",
       rule="cases = every script up to the tier's length over 11 operations (subscribe, unsubscribe, unicast, multicast, "
            "broadcast, poll; 2 client ids, 2 topics) that contains a subscribe, with a poll time-out of a few ms; seeded "
            "longer scripts; free-running runs with 2-3 publishers and a poll loop per id whose time-outs collide with "
-           "publishes; 4 gate-forced orders x 2 time-outs; every case ends with polls until two come back empty; "
+           "publishes; 4 gate-forced orders x 2 time-outs; heart-beat scenarios over tcp and mock (a publisher disconnects "
+           "after its publish woke the poll, polls that find messages at once while publishers come and go, a client "
+           "that lets the heart beat lapse); every case ends with polls until two come back empty; "
            "non-trivial = at least one publish",
-      assumptions=["the heartbeat is disabled (HeartBeat = 0) so that delivery is judged independently of the "
-                   "heartbeat-driven offline detection", "one poll per client id at a time (as the Prosumer does)",
-                   "clients talk to the broker over the mock transport"],
+      assumptions=["except in the heart-beat scenarios the heartbeat is disabled (HeartBeat = 0) so that delivery is judged "
+                   "independently of the heartbeat-driven offline detection", "one poll per client id at a time (as the Prosumer does)",
+                   "clients talk to the broker over the mock transport (heart-beat scenarios: also tcp, one connection per client id)",
+                   "heart-beat scenarios run in real time: heart beat 400 ms, the client polls again within 40 ms"],
       sig_reset=("mode", "scenario"), sig_event=("ev",),
       mutate=_c19_mutate, design_ref="DESIGN.md §6 C19",
-      technique="TLC model checking of Push.tla (NoDeadLetter, Conservation, InOrder, liveness of the time-out handshake) + TLC trace validation of real broker runs against the linearizable PushMonitor"))
+      technique="TLC model checking of Push.tla (StaysOnline, NoDeadLetter, Conservation, InOrder, liveness of the time-out handshake) + TLC trace validation of real broker runs against the linearizable PushMonitor"))
 
 
 import re as _re
